@@ -472,6 +472,56 @@ func c20CurryConc(callargs [][]int, gate bool) map[string]interface{} {
 	return out
 }
 
+// the first invocation of fn calls MarkDone itself (under the Call mutex) while k further Calls have already been started:
+// fn must have been invoked exactly once and Result must stay the first invocation's value (Curry.tla, FnMarksDone)
+func c20CurryMarksDone(k int) map[string]interface{} {
+	out := map[string]interface{}{"part": "currydone", "k": k, "kind": "ok"}
+	var invocations int32
+	firstIn := make(chan struct{}, 1)
+	release := make(chan struct{})
+	cur := fpgo.CurryNewGenerics(func(cd *fpgo.CurryDef[int, int], args ...int) int {
+		if atomic.AddInt32(&invocations, 1) == 1 {
+			firstIn <- struct{}{}
+			<-release // the other Calls are started meanwhile
+			cd.MarkDone()
+		}
+		return sum(args)
+	})
+	var wg sync.WaitGroup
+	start := func(v int) {
+		wg.Add(1)
+		go func() {
+			defer wg.Done()
+			defer func() { recover() }()
+			cur.Call(v)
+		}()
+	}
+	start(1)
+	select {
+	case <-firstIn:
+	case <-time.After(5 * time.Second):
+		out["kind"] = "stuck"
+		return out
+	}
+	for i := 0; i < k; i++ {
+		start(10 + i)
+	}
+	time.Sleep(5 * time.Millisecond) // the later Calls are past any test they make before taking the mutex
+	close(release)
+	done := make(chan struct{})
+	go func() { wg.Wait(); close(done) }()
+	select {
+	case <-done:
+	case <-time.After(10 * time.Second):
+		out["kind"] = "stuck"
+		return out
+	}
+	out["invocations"] = int(atomic.LoadInt32(&invocations))
+	out["result"] = cur.Result()
+	out["done"] = cur.IsDone()
+	return out
+}
+
 // ---- pattern matching
 type probeS struct{ A int }
 
@@ -666,6 +716,10 @@ func c20Main(args []string) error {
 		cnt := 0
 		for _, s := range sets {
 			w.write(c20CurryConc(s, true))
+			cnt++
+		}
+		for k := 1; k <= 3; k++ {
+			w.write(c20CurryMarksDone(k))
 			cnt++
 		}
 		for i := 0; i < n; i++ {
